@@ -36,23 +36,13 @@ def constraintToks (vc : VC) : List RNode :=
   vc.display.map fun c =>
     if c = '>' then Node.tok .R_ANGLE [c] else if c = '<' then Node.tok .L_ANGLE [c] else Node.tok .EQUAL [c]
 
-/-- Rust `str::split_once(c)` -/
-def splitOnce (c : Char) : Str → Option (Str × Str)
-  | [] => none
-  | x :: xs =>
-    if x = c then some ([], xs)
-    else match splitOnce c xs with
-      | some (a, b) => some (x :: a, b)
-      | none => none
-
-/-- `version_tokens` (relations.rs:1059-1069): `IDENT`, or `IDENT COLON IDENT` when the version has
-    an epoch — what the lexer makes of the same text -/
+/-- `version_tokens` (relations.rs:1059-1069 at 27115b9; rewritten by fix 4ba50b0): `IDENT`, or — when the version has
+    an epoch — `IDENT (COLON IDENT)*`: the pieces of `text.split(':')` as IDENT tokens with a COLON
+    before every piece but the first (what the lexer makes of the same text) -/
 def versionTokens (v : Version) : List RNode :=
-  match splitOnce ':' v.display with
-  | some (epoch, rest) =>
-    if v.epoch.isSome then [Node.tok .IDENT epoch, T .COLON ":", Node.tok .IDENT rest]
-    else [Node.tok .IDENT v.display]
-  | none => [Node.tok .IDENT v.display]
+  if v.epoch.isSome then
+    sepBy [T .COLON ":"] ((Text.splitOn ':' v.display).map fun p => [Node.tok .IDENT p])
+  else [Node.tok .IDENT v.display]
 
 /-- `version_node` (relations.rs:1072-1092): `(` CONSTRAINT(op chars) ` ` version tokens `)` -/
 def versionNode (c : VC) (v : Version) : RNode :=
